@@ -296,7 +296,7 @@ def run(chk):
                 continue
             chk.fail("C09:child-error", r.get("trace", "")[-300:], {"kind": "flow", "case": c, "observed": r})
             continue
-        strict = c["cls"] != "augmented"
+        strict = False      # today's backward_pass masks z too; strict = True is the refuted pre-fix variant of the model
         for pi, pop in enumerate(r["pops"]):
             chk.count(f"flow:{c['flow']}:{c['cls']}:{'acc' if c['acc'] else 'plain'}")
             if pop.get("dup"):
@@ -308,7 +308,7 @@ def run(chk):
             kind = 0
             if "error" in pop:
                 kind = 1
-                if "IndexError" in pop["error"] and nonfin and strict:
+                if "IndexError" in pop["error"] and nonfin:
                     chk.fail(NONFINITE_KEY, "FlowProposal.backward_pass raises IndexError when the flow returns a non-finite "
                              "log-probability (x and log_prob are masked with isfinite, z is not): " + pop["error"],
                              {"kind": "flow", "case": c, "population": pi})
